@@ -1,20 +1,312 @@
 /-
 C13 — allocator limits are enforced exactly.
 
-Property theorems only; helper lemmas are in `Lemmas/Alloc*.lean`.  The model is
-`ClvmModel/Alloc.lean` (transcription of `src/allocator.rs`), the reference is `RefAlloc`.
+Property theorems only; helper lemmas are in `Lemmas/Alloc*.lean`.  `Inv` (every `AtomBuf`
+inside the heap, children older than their pair, `atom_count ≤ MAX_NUM_ATOMS`,
+`pair_count ≤ MAX_NUM_PAIRS`, `heap_limit ≤ u32::MAX`) is preserved by every operation;
+`HeapOk` (`heap_size ≤ heap_limit`) by every operation except `new_substr` inside the defect
+region of DESIGN §6 finding C (`HeapCap` / `heap_cap_partial` / `heap_cap_witness`).
+`fail_exact`: each operation returns its limit error exactly when completing it would exceed
+the cap; `fail_unchanged`: a failed operation leaves the state unchanged.
 -/
-import ClvmModel.Alloc.Session
+import ClvmProofs.Lemmas.AllocStep
 
 namespace Clvm.Props.C13
 open Clvm Clvm.Alloc
 
-/-- a fresh allocator reports the counts of the historical heap-only allocator (`nil`, `one`) -/
-theorem new_counts (limit : Nat) (a : Alloc) (h : newLimited limit = .ok a) :
-    atomCount a = Gen.initGhostAtoms ∧ pairCount a = Gen.initGhostPairs ∧ heapSize a = Gen.initGhostHeap := by
+/-- the caps of the statement (62,500,000) are the ones the code declares -/
+theorem caps_values : Gen.maxNumAtoms = 62500000 ∧ Gen.maxNumPairs = 62500000 := by decide
+
+theorem inv_new (limit : Nat) (a0 : Alloc) (h : newLimited limit = .ok a0) (hl : Gen.initGhostHeap ≤ limit) :
+    Inv a0 ∧ HeapOk a0 := by
   unfold newLimited at h
   split at h
   · cases h
-  · cases h; simp [atomCount, pairCount, heapSize]
+  · next hle =>
+    cases h
+    refine ⟨⟨Closed.nil _, ?_, ?_, ?_⟩, hl⟩
+    · show ([] : List (Nat × Nat)).length + Gen.initGhostAtoms ≤ Gen.maxNumAtoms; decide
+    · show ([] : List (Ptr × Ptr)).length + Gen.initGhostPairs ≤ Gen.maxNumPairs; decide
+    · show limit ≤ u32Max; omega
+
+/-- `new_limited` panics above 4 GiB -/
+theorem new_limited_panics (limit : Nat) (h : limit > u32Max) : ∃ m, newLimited limit = .error (.Panic m) := by
+  unfold newLimited; rw [if_pos h]; exact ⟨_, rfl⟩
+
+/-- counts never exceed the caps, in every state satisfying the invariant -/
+theorem counts_le_caps (a : Alloc) (hI : Inv a) :
+    atomCount a ≤ Gen.maxNumAtoms ∧ pairCount a ≤ Gen.maxNumPairs := ⟨hI.atomCap, hI.pairCap⟩
+
+/-- all lengths stay below 2^32: the `as u32` casts of the code are the identity -/
+theorem lengths_fit_u32 (a : Alloc) (hI : Inv a) (hH : HeapOk a) : a.u8.length < 2 ^ 32 := by
+  have := hI.limit
+  unfold HeapOk at hH
+  unfold u32Max at this
+  omega
+
+/-! ### `Inv` is preserved by every operation; failed operations change nothing -/
+
+/-- node-creating operations (`new_atom`, `new_small_number`, `new_u64`, `new_i64`, `new_number`,
+`new_pair`, `new_concat`, `new_substr` outside the defect region — see the `refines_…` theorems
+of C12 for the instances): whatever the outcome, `Inv` holds afterwards -/
+theorem inv_preserved (a : Alloc) (out : Out Ptr) (ref : Except Err (Tree × RefAlloc)) (hI : Inv a)
+    (h : Refines a out ref) : Inv out.2 := by
+  obtain ⟨res, a'⟩ := out
+  cases res with
+  | ok p =>
+    cases ref with
+    | ok x => exact h.2.2.2.1
+    | error e => exact absurd h (by simp [Refines])
+  | error e =>
+    cases ref with
+    | ok x => exact absurd h (by simp [Refines])
+    | error e' => rw [show a' = a from h.2]; exact hI
+
+theorem inv_preserved_unit (a : Alloc) (out : Out Unit) (ref : Except Err RefAlloc) (hI : Inv a)
+    (h : RefinesU a out ref) : Inv out.2 := by
+  obtain ⟨res, a'⟩ := out
+  cases res with
+  | ok p =>
+    cases ref with
+    | ok x => exact h.2.1
+    | error e => exact absurd h (by simp [RefinesU])
+  | error e =>
+    cases ref with
+    | ok x => exact absurd h (by simp [RefinesU])
+    | error e' => rw [show a' = a from h.2]; exact hI
+
+/-- `new_substr` inside the defect region still preserves `Inv` (it is `HeapOk` that it breaks) -/
+theorem inv_preserved_substr_defect (a : Alloc) (v s e : Nat) (hI : Inv a) (hp : Valid a (.small v))
+    (hd : substrDefect (.small v) s e = true) : Inv (newSubstr a (.small v) s e).2 := by
+  by_cases hfull : atomCount a + 1 ≤ Gen.maxNumAtoms
+  · obtain ⟨a', h, _, _, _, _, hI', _⟩ := newSubstr_defect a v s e hI hp hd hfull
+    rw [h]; exact hI'
+  · unfold newSubstr
+    rw [checkAtomLimit_eq a hI, if_pos (by omega)]
+    exact hI
+
+theorem inv_preserved_restore (a : Alloc) (cp : Checkpoint) (hI : Inv a) (hv : CpValid a cp) :
+    Inv (restoreCheckpoint a cp).2 := by
+  rw [restoreCheckpoint_eq a cp hv]; exact restoredC_inv a cp hI hv
+
+theorem inv_preserved_restore_transparent (a : Alloc) (cp : TCheckpoint) (hI : Inv a) (hv : TCpValid a cp) :
+    Inv (restoreTransparentCheckpoint a cp).2 := by
+  rw [restoreTransparent_eq a cp hv]; exact restoredT_inv a cp hI hv
+
+theorem inv_preserved_maybe_restore (a : Alloc) (cp : TCheckpoint) (ret : Ptr) (hI : Inv a)
+    (hv : TCpValid a cp) (hr : Valid a ret) : Inv (maybeRestoreWithNode a cp ret).2 := by
+  obtain ⟨r, a', h, ho⟩ := maybeRestore_ok a cp ret hI hv hr
+  rw [h]
+  cases ho with
+  | aborted => exact hI
+  | noReplace _ hw => exact hw.inv
+  | replace _ q _ hw => exact hw.inv
+
+/-- **`fail_unchanged`**: a failed node-creating operation leaves contents and counts unchanged
+(this includes the `truncate` exits of `new_concat`) -/
+theorem fail_unchanged (a : Alloc) (out : Out Ptr) (ref : Except Err (Tree × RefAlloc))
+    (h : Refines a out ref) (e : Err) (he : out.1 = .error e) : out.2 = a := by
+  obtain ⟨res, a'⟩ := out
+  cases res with
+  | ok p => cases he
+  | error e0 =>
+    cases ref with
+    | ok x => exact absurd h (by simp [Refines])
+    | error e' => exact h.2
+
+theorem fail_unchanged_unit (a : Alloc) (out : Out Unit) (ref : Except Err RefAlloc)
+    (h : RefinesU a out ref) (e : Err) (he : out.1 = .error e) : out.2 = a := by
+  obtain ⟨res, a'⟩ := out
+  cases res with
+  | ok p => cases he
+  | error e0 =>
+    cases ref with
+    | ok x => exact absurd h (by simp [RefinesU])
+    | error e' => exact h.2
+
+/-- the instance with the `truncate` paths -/
+theorem fail_unchanged_concat (a : Alloc) (newSize : Nat) (ps : List Ptr) (hI : Inv a)
+    (hv : ∀ p ∈ ps, Valid a p) (h1 : ∀ i, ps ≠ [.pair i]) (e : Err)
+    (he : (newConcat a newSize ps).1 = .error e) : (newConcat a newSize ps).2 = a :=
+  fail_unchanged a _ _ (newConcat_refines a newSize ps hI hv h1) e he
+
+/-! ### `fail_exact` -/
+
+theorem kind_oom {e : Err} (h : e.kind = Err.OutOfMemory.kind) : e = .OutOfMemory := by
+  cases e <;> first | rfl | (simp [Err.kind] at h)
+
+theorem kind_atoms {e : Err} (h : e.kind = Err.TooManyAtoms.kind) : e = .TooManyAtoms := by
+  cases e <;> first | rfl | (simp [Err.kind] at h)
+
+theorem kind_pairs {e : Err} (h : e.kind = Err.TooManyPairs.kind) : e = .TooManyPairs := by
+  cases e <;> first | rfl | (simp [Err.kind] at h)
+
+theorem refines_error {a : Alloc} {out : Out Ptr} {ref : Except Err (Tree × RefAlloc)} {e' : Err}
+    (h : Refines a out ref) (hr : ref = .error e') : ∃ e, out = (.error e, a) ∧ e.kind = e'.kind := by
+  subst hr
+  obtain ⟨res, a'⟩ := out
+  cases res with
+  | ok p => exact absurd h (by simp [Refines])
+  | error e => exact ⟨e, by rw [show a' = a from h.2], h.1⟩
+
+theorem refines_ok {a : Alloc} {out : Out Ptr} {ref : Except Err (Tree × RefAlloc)} {x : Tree × RefAlloc}
+    (h : Refines a out ref) (hr : ref = .ok x) : ∃ p a', out = (.ok p, a') := by
+  subst hr
+  obtain ⟨res, a'⟩ := out
+  cases res with
+  | ok p => exact ⟨p, a', rfl⟩
+  | error e => exact absurd h (by simp [Refines])
+
+/-- `new_atom`: `OutOfMemory` iff the bytes do not fit below the heap limit; otherwise
+`TooManyAtoms` iff the atom count is at its cap; otherwise it succeeds -/
+theorem new_atom_fail_exact (a : Alloc) (b : Bytes) (hI : Inv a) :
+    (heapSize a + b.length > a.heapLimit → newAtom a b = (.error .OutOfMemory, a)) ∧
+    (heapSize a + b.length ≤ a.heapLimit → atomCount a + 1 > Gen.maxNumAtoms →
+      newAtom a b = (.error .TooManyAtoms, a)) ∧
+    (heapSize a + b.length ≤ a.heapLimit → atomCount a + 1 ≤ Gen.maxNumAtoms →
+      ∃ p a', newAtom a b = (.ok p, a')) := by
+  have h := newAtom_refines a b hI
+  refine ⟨fun h1 => ?_, fun h1 h2 => ?_, fun h1 h2 => ?_⟩
+  · obtain ⟨e, he, hk⟩ := refines_error h (e' := .OutOfMemory) (by
+      unfold RefAlloc.newAtom; rw [if_pos (by exact h1)])
+    rw [he, kind_oom hk]
+  · obtain ⟨e, he, hk⟩ := refines_error h (e' := .TooManyAtoms) (by
+      unfold RefAlloc.newAtom
+      rw [if_neg (by show ¬ heapSize a + b.length > a.heapLimit; omega), if_pos (by exact h2)])
+    rw [he, kind_atoms hk]
+  · exact refines_ok h (by
+      unfold RefAlloc.newAtom
+      rw [if_neg (by show ¬ heapSize a + b.length > a.heapLimit; omega),
+          if_neg (by show ¬ atomCount a + 1 > Gen.maxNumAtoms; omega)])
+
+/-- `new_pair`: `TooManyPairs` iff the pair count is at its cap -/
+theorem new_pair_fail_exact (a : Alloc) (l r : Ptr) (hI : Inv a) (hl : Valid a l) (hr : Valid a r) :
+    (pairCount a + 1 > Gen.maxNumPairs → newPair a l r = (.error .TooManyPairs, a)) ∧
+    (pairCount a + 1 ≤ Gen.maxNumPairs → ∃ p a', newPair a l r = (.ok p, a')) := by
+  have h := newPair_refines a l r hI hl hr
+  refine ⟨fun h1 => ?_, fun h1 => ?_⟩
+  · obtain ⟨e, he, hk⟩ := refines_error h (e' := .TooManyPairs) (by
+      unfold RefAlloc.newPair; rw [if_pos (by exact h1)])
+    rw [he, kind_pairs hk]
+  · exact refines_ok h (by
+      unfold RefAlloc.newPair; rw [if_neg (by show ¬ pairCount a + 1 > Gen.maxNumPairs; omega)])
+
+/-- `add_ghost_atom(n)` / `add_ghost_pair(n)`: fail iff the count would exceed the cap -/
+theorem add_ghost_fail_exact (a : Alloc) (n : Nat) (hI : Inv a) :
+    (atomCount a + n > Gen.maxNumAtoms → addGhostAtom a n = (.error .TooManyAtoms, a)) ∧
+    (atomCount a + n ≤ Gen.maxNumAtoms → ∃ a', addGhostAtom a n = (.ok (), a') ∧ atomCount a' = atomCount a + n) ∧
+    (pairCount a + n > Gen.maxNumPairs → addGhostPair a n = (.error .TooManyPairs, a)) ∧
+    (pairCount a + n ≤ Gen.maxNumPairs → ∃ a', addGhostPair a n = (.ok (), a') ∧ pairCount a' = pairCount a + n) := by
+  have ha := hI.atomCap
+  have hp := hI.pairCap
+  unfold atomCount pairCount
+  refine ⟨fun h => ?_, fun h => ?_, fun h => ?_, fun h => ?_⟩
+  · unfold addGhostAtom; rw [if_neg (by omega), if_neg (by omega), if_pos (by omega)]
+  · unfold addGhostAtom; rw [if_neg (by omega), if_neg (by omega), if_neg (by omega)]
+    exact ⟨_, rfl, by simp only []; omega⟩
+  · unfold addGhostPair; rw [if_neg (by omega), if_neg (by omega), if_pos (by omega)]
+  · unfold addGhostPair; rw [if_neg (by omega), if_neg (by omega), if_neg (by omega)]
+    exact ⟨_, rfl, by simp only []; omega⟩
+
+/-- `new_substr` and `new_concat` check the atom cap first; `new_concat` then the heap limit with
+the declared size -/
+theorem substr_concat_fail_exact (a : Alloc) (hI : Inv a) :
+    (∀ p s e, atomCount a + 1 > Gen.maxNumAtoms → newSubstr a p s e = (.error .TooManyAtoms, a)) ∧
+    (∀ n ps, atomCount a + 1 > Gen.maxNumAtoms → newConcat a n ps = (.error .TooManyAtoms, a)) ∧
+    (∀ n ps, atomCount a + 1 ≤ Gen.maxNumAtoms → heapSize a + n > a.heapLimit →
+      newConcat a n ps = (.error .OutOfMemory, a)) := by
+  refine ⟨fun p s e h => ?_, fun n ps h => ?_, fun n ps h1 h2 => ?_⟩
+  · unfold newSubstr; rw [checkAtomLimit_eq a hI, if_pos h]
+  · unfold newConcat; rw [checkAtomLimit_eq a hI, if_pos h]
+  · unfold newConcat
+    rw [checkAtomLimit_eq a hI, if_neg (by omega)]
+    simp only []
+    rw [if_pos (by exact h2)]
+
+/-- no other operation can fail with a limit error once these checks pass: a concatenation whose
+declared size is right and fits succeeds -/
+theorem concat_succeeds (a : Alloc) (n : Nat) (ps : List Ptr) (hI : Inv a) (hv : ∀ p ∈ ps, Valid a p)
+    (hat : ∀ p ∈ ps, isAtomPtr p = true)
+    (hn : ((ps.map (nodeBytes a)).flatten).length = n)
+    (h1 : atomCount a + 1 ≤ Gen.maxNumAtoms) (h2 : heapSize a + n ≤ a.heapLimit) :
+    ∃ p a', newConcat a n ps = (.ok p, a') := by
+  have h := newConcat_refines a n ps hI hv (fun i hi => by
+    have := hat (.pair i) (by rw [hi]; simp)
+    simp [isAtomPtr] at this)
+  have hats : ∀ (qs : List Ptr), (∀ p ∈ qs, isAtomPtr p = true) →
+      RefAlloc.atomsOf (qs.map (treeOf a)) = some (qs.map (nodeBytes a)) := by
+    intro qs
+    induction qs with
+    | nil => intro _; rfl
+    | cons q qs ih =>
+      intro hq
+      simp only [List.map_cons, treeOf_atom a q (hq q (by simp)), RefAlloc.atomsOf,
+        ih (fun p hp => hq p (by simp [hp]))]
+      rfl
+  exact refines_ok h (by
+    unfold RefAlloc.newConcat
+    rw [if_neg (by show ¬ atomCount a + 1 > Gen.maxNumAtoms; omega),
+        if_neg (by show ¬ heapSize a + n > a.heapLimit; omega), hats ps hat]
+    simp only []
+    rw [if_neg (by simp [hn])])
+
+/-! ### histories -/
+
+/-- full statement: along any history from a fresh allocator the atom and pair counts never exceed
+their caps and the heap size never exceeds the heap limit -/
+def HeapCap : Prop :=
+  ∀ (limit : Nat) (a0 : Alloc) (ops : List Op) (sf : Session) (ts : List (Tag × Nat × Nat × Nat)),
+    newLimited limit = .ok a0 → Gen.initGhostHeap ≤ limit → (∀ op ∈ ops, op.wf) →
+    (Session.init a0).run ops = .ok (sf, ts) →
+    atomCount sf.a ≤ Gen.maxNumAtoms ∧ pairCount sf.a ≤ Gen.maxNumPairs ∧ heapSize sf.a ≤ limit
+
+theorem heapLimit_new (limit : Nat) (a0 : Alloc) (h : newLimited limit = .ok a0) : a0.heapLimit = limit := by
+  unfold newLimited at h
+  split at h
+  · cases h
+  · cases h; rfl
+
+/-- … holds (together with the validity of every published node and checkpoint, `SInv`) for every
+history none of whose steps is in the defect region of finding C -/
+theorem heap_cap_partial (limit : Nat) (a0 : Alloc) (ops : List Op) (sf : Session)
+    (ts : List (Tag × Nat × Nat × Nat)) (h0 : newLimited limit = .ok a0) (hl : Gen.initGhostHeap ≤ limit)
+    (hw : ∀ op ∈ ops, op.wf) (hd : NoDefect (Session.init a0) ops)
+    (h : (Session.init a0).run ops = .ok (sf, ts)) :
+    SInv sf ∧ atomCount sf.a ≤ Gen.maxNumAtoms ∧ pairCount sf.a ≤ Gen.maxNumPairs ∧ heapSize sf.a ≤ limit := by
+  have ⟨hI, hH⟩ := inv_new limit a0 h0 hl
+  have hS := run_sinv ops _ (SInv.init a0 hI hH) hw hd sf ts h
+  refine ⟨hS, hS.inv.atomCap, hS.inv.pairCap, ?_⟩
+  have hlim : ∀ (ops : List Op) (s sf : Session) (ts : List (Tag × Nat × Nat × Nat)), SInv s →
+      (∀ op ∈ ops, op.wf) → NoDefect s ops → s.run ops = .ok (sf, ts) → sf.a.heapLimit = s.a.heapLimit := by
+    intro ops
+    induction ops with
+    | nil => intro s sf ts _ _ _ h; simp only [Session.run] at h; cases h; rfl
+    | cons op ops ih =>
+      intro s sf ts hS hw hd h
+      obtain ⟨s1, t, ts', h1, h2, _⟩ := run_cons s op ops sf ts h
+      have hf := step_facts s hS op (hw op (by simp)) hd.1 s1 t h1
+      rw [ih s1 sf ts' hf.sinv (fun o ho => hw o (by simp [ho])) (hd.2 s1 t h1) h2]
+      have hc := congrArg RefAlloc.heapLimit hf.counts
+      have : ∀ (r : RefAlloc) (s : Session) (op : Op) (t : Tag), (r.after s op t).heapLimit = r.heapLimit := by
+        intro r s op t
+        unfold RefAlloc.after
+        cases t <;> cases op <;> simp only [RefAlloc.bump] <;> (try split) <;> rfl
+      rw [this] at hc
+      exact hc
+  have := hS.heap
+  unfold HeapOk at this
+  rw [hlim ops _ sf ts (SInv.init a0 hI hH) hw hd h] at this
+  show sf.a.u8.length + sf.a.ghostHeap ≤ limit
+  rw [← heapLimit_new limit a0 h0]
+  exact this
+
+/-- `new_limited(3); new_small_number(128); new_substr(#0, 0, 1)` ends with heap size 4 -/
+theorem heap_cap_witness : ¬ HeapCap := by
+  intro h
+  have hw : ∀ op ∈ [Op.small 128, Op.sub 0 0 1], op.wf := by
+    intro op hop; simp at hop; rcases hop with rfl | rfl <;> trivial
+  have := (h 3 _ [.small 128, .sub 0 0 1] _ _ rfl (by decide) hw rfl).2.2
+  revert this
+  decide
 
 end Clvm.Props.C13
